@@ -335,7 +335,11 @@ BindArgs(params, args, st, j, acc) ==
 Enter(pi, b, sid, kk) ==
   LET st == b.st
       proc == st.prog.subs[pi]
-      base == IF proc.static /\ proc.n \in DOMAIN st.statics THEN st.statics[proc.n] ELSE NoFun
+      \* a STATIC procedure that is entered while an activation of it is still running (recursion) works on the variables
+      \* of that activation: there is one set of them, whoever calls
+      running == {j \in 1..Len(st.act) : st.act[j].sub = proc.n}
+      base == IF proc.static /\ running # {} THEN st.act[CHOOSE j \in running : \A q \in running : q <= j].vars
+              ELSE IF proc.static /\ proc.n \in DOMAIN st.statics THEN st.statics[proc.n] ELSE NoFun
       vars == b.vars @@ base        \* parameters are (re)bound at each call
       \* gsb: how many GOSUBs were pending when the procedure was entered (its own come on top of them)
       a == [sub |-> proc.n, vars |-> vars, refs |-> b.refs, site |-> sid, lc |-> NoFun, gsb |-> Len(st.gs)]
@@ -366,7 +370,18 @@ ReturnFromCall(st) ==
                                     THEN (IF proc.n \in DOMAIN @ THEN [@ EXCEPT ![proc.n] = a.vars]
                                           ELSE @ @@ (proc.n :> a.vars))
                                     ELSE @]
-  IN CopyOut(st1, a.refs, a.vars, 1)
+      \* the STATIC variables as the inner activation leaves them are those of the outer activation of the same procedure
+      \* (its parameters stay its own)
+      pkeys == {KeyS(proc.params[j].n, proc.params[j].t) : j \in 1..Len(proc.params)}
+      outer == {j \in 1..Len(st1.act) : st1.act[j].sub = proc.n}
+      st2 == IF proc.static /\ outer # {}
+             THEN LET o == CHOOSE j \in outer : \A q \in outer : q <= j
+                      ov == st1.act[o].vars
+                      merged == [key \in (DOMAIN ov) \cup ((DOMAIN a.vars) \ pkeys) |->
+                                   IF key \in DOMAIN a.vars /\ key \notin pkeys THEN a.vars[key] ELSE ov[key]]
+                  IN [st1 EXCEPT !.act[o].vars = merged]
+             ELSE st1
+  IN CopyOut(st2, a.refs, a.vars, 1)
 
 \* run the machine until the activation entered at depth d has returned
 RunNested(st, d) ==
